@@ -28,18 +28,6 @@ type Spec_RandomWinnerResolver struct {
 	current CurrentIsWinnerDrawResolver
 }
 
-type Spec_DrawAllowedResolver struct {
-}
-
-type Spec_CurrentIsWinnerDrawResolver struct {
-}
-
-type Spec_NewerIsWinnerResolver struct {
-}
-
-type Spec_MajorityBiasListener struct {
-}
-
 type Spec_MajorityBiasListener struct {
 }
 
